@@ -664,7 +664,12 @@ func (r *Runner) CoqCase() string {
 			continue
 		}
 		seen[f.Root.ByteString()] = true
-		fmt.Fprintf(&sb, "(CC %s %s %s ", r.ai(f.Root.Bytes()), r.nlAddrs(f.Leaves), r.nlAddrs(f.Edges))
+		// what the manifest probe of the traversal reads besides root and edges: a bare reference's whole content
+		var probe [][]byte
+		if f.Spec.Kind != "aurora" {
+			probe = f.Leaves
+		}
+		fmt.Fprintf(&sb, "(CC %s %s %s %s ", r.ai(f.Root.Bytes()), r.nlAddrs(f.Leaves), r.nlAddrs(f.Edges), r.nlAddrs(probe))
 		n++
 	}
 	sb.WriteString("CE")
@@ -687,7 +692,7 @@ func (r *Runner) CoqCase() string {
 type Snap struct {
 	Data  map[string]bool
 	Pin   map[string]uint64
-	GC    map[string]bool // roots with a gc entry
+	GC    map[string]string // gc entries (full key) -> root
 	Roots map[string]bool // registered roots (raw address)
 	Count map[string]uint // reference counts (raw address)
 }
@@ -697,7 +702,7 @@ func (r *Runner) Snap() Snap {
 	if err != nil {
 		panic(err)
 	}
-	s := Snap{Data: map[string]bool{}, Pin: map[string]uint64{}, GC: map[string]bool{}, Roots: map[string]bool{}, Count: map[string]uint{}}
+	s := Snap{Data: map[string]bool{}, Pin: map[string]uint64{}, GC: map[string]string{}, Roots: map[string]bool{}, Count: map[string]uint{}}
 	for _, e := range d.Data {
 		s.Data[string(e.Address)] = true
 	}
@@ -705,7 +710,7 @@ func (r *Runner) Snap() Snap {
 		s.Pin[string(e.Address)] = e.PinCounter
 	}
 	for _, e := range d.GC {
-		s.GC[string(e.Address)] = true
+		s.GC[gcKey(e)] = string(e.Address)
 	}
 	p := r.S.Pyramid()
 	for _, k := range p.Roots {
